@@ -145,7 +145,7 @@ Definition names2 (arg : bytes) : list bytes :=
 Definition arg_dom (arg : bytes) : Prop :=
   match create arg with
   | Ok t => Forall hr_ok2 (ranges t) /\ Forall name_dom (expand (ranges t))
-  | _ => True
+  | _ => False
   end.
 
 Lemma xfold_delete_spec : forall nms s, wc_ok s -> Forall name_dom nms ->
@@ -167,9 +167,13 @@ Proof.
   intros Hs Hdom. unfold exclude_arg, names2, arg_dom in *. cbn [fixed v_expand_first v_del_all].
   destruct (create arg) as [t|e|f] eqn:Ec.
   - destruct Hdom as [H2 Hn]. rewrite shift_all_expand by auto. apply xfold_delete_spec; auto.
-  - exists s. split; auto. split; auto. cbn [memb existsb negb]. symmetry. apply filter_true.
+  - destruct Hdom.
   - exfalso. eapply create_no_fault; eauto.
 Qed.
+
+(* an exclusion argument the parser cannot read makes the run end with an error: it is never skipped *)
+Lemma exclude_arg_refused s arg e : create arg = Err e -> exclude_arg fixed s arg = XErrx.
+Proof. intros E. unfold exclude_arg. cbn [fixed v_expand_first]. rewrite E. reflexivity. Qed.
 
 Lemma apply_excluded_spec : forall excl s, wc_ok s -> Forall arg_dom excl ->
   exists s', apply_excluded fixed s excl = XOk s' /\ wc_ok s' /\
@@ -606,7 +610,7 @@ Qed.
 
 Lemma arg_domb_sound arg : arg_domb arg = true -> arg_dom arg.
 Proof.
-  unfold arg_domb, arg_dom. destruct (create arg) as [t|e|f] eqn:Ec; auto. intros H.
+  unfold arg_domb, arg_dom. destruct (create arg) as [t|e|f] eqn:Ec; try discriminate. intros H.
   apply andb_true_iff in H as [H1 H2]. split.
   - apply hr_ok2b_sound; auto. apply (create_size_bound _ _ Ec).
   - rewrite forallb_forall in H2. apply Forall_forall. intros nm Hnm. apply name_domb_sound. auto.
